@@ -23,7 +23,9 @@ arithmetic belongs to C03):
                         literally (including the missing "src unassigned, dst assigned" case and the
                         non-merging branch of case 3); the dict is an insertion-ordered association
                         list with unique keys.
-* `minPeaksThreshold`, `filterSmall` — `min_instance_peaks` (int, or `int(frac·n_nodes)`).
+* `minPeaksThresholdF64`, `filterSmall` — `min_instance_peaks` (int, or `int(frac·n_nodes)` with the
+                        product rounded to float64 as in the code; `minPeaksThreshold` is the exact-product
+                        idealisation the AST-translated block is tied to).
 * `makeInstances`     — `make_predicted_instances`: contiguous ids in ascending id order, score
                         accumulation in connection order, the sanity `assert` / dict lookup as an
                         explicit error, rows written in dict order (last write wins).
@@ -209,12 +211,56 @@ inductive MinPeaks
   | int (n : Int)
   | frac (q : Rat)
 
-/-- `None` = `min_instance_peaks > 0` is false, no filtering;
-    a float is converted with `int(min_instance_peaks * n_nodes)` -/
+/-- Threshold rule on **exact** numbers: `None` = `min_instance_peaks > 0` is false, no filtering; a
+    fraction is converted with `⌊q · n_nodes⌋` on the exact product.  This is what the AST-translated
+    block (`Props/TranslatedC08`, exact `pyMul`) computes.  The code's `int(q * n_nodes)` multiplies
+    in float64 first: `minPeaksThresholdF64` is that rule literally, and `effMinPeaks` / `mkParams`
+    make the pipeline model follow it for every float (`Lemmas/GroupingOut`: `filterSmall_eff`).
+    The two rules agree whenever the float64 product is exact (`minPeaksThresholdF64_of_exact`). -/
 def minPeaksThreshold (mp : MinPeaks) (nNodes : Nat) : Option Int :=
   match mp with
   | .int n => if 0 < n then some n else none
   | .frac q => if 0 < q then some (q * (nNodes : Rat)).floor else none
+
+/-- `2^e` for an integer exponent -/
+def pow2 (e : Int) : Rat :=
+  if 0 ≤ e then ((2 ^ e.toNat : Nat) : Rat) else 1 / ((2 ^ (-e).toNat : Nat) : Rat)
+
+/-- round to the nearest integer, ties to even -/
+def roundHalfEven (x : Rat) : Int :=
+  let f := x.floor
+  let r := x - (f : Rat)
+  if r < 1 / 2 then f else if 1 / 2 < r then f + 1 else if f % 2 = 0 then f else f + 1
+
+/-- The IEEE-754 binary64 value nearest to a positive rational (round to nearest, ties to even;
+    53-bit significand, gradual underflow below `2^-1022`; overflow to `inf` is not modelled — the
+    code would raise `OverflowError` in `int(inf)`).  Doubles are dyadic rationals, so `Rat` carries
+    the result exactly.  Non-positive arguments are returned unchanged (never used). -/
+def roundF64 (x : Rat) : Rat :=
+  if x ≤ 0 then x
+  else
+    let a : Int := x.num.natAbs.log2
+    let b : Int := x.den.log2
+    let e0 : Int := a - b - 52
+    let e1 := if x / pow2 e0 < pow2 52 then e0 - 1 else e0
+    let e2 := if pow2 53 ≤ x / pow2 e1 then e1 + 1 else e1
+    let e := if e2 < -1074 then -1074 else e2
+    (roundHalfEven (x / pow2 e) : Rat) * pow2 e
+
+/-- The code's threshold: `if min_instance_peaks > 0:` … `int(min_instance_peaks * n_nodes)` for a
+    float, **the product taken in float64** (`q` is the exact rational value of the double passed,
+    `n_nodes` a small integer, the product is rounded to the nearest double, then truncated). -/
+def minPeaksThresholdF64 (mp : MinPeaks) (nNodes : Nat) : Option Int :=
+  match mp with
+  | .int n => if 0 < n then some n else none
+  | .frac q => if 0 < q then some (roundF64 (q * (nNodes : Rat))).floor else none
+
+/-- The code's conversion statement `min_instance_peaks = int(min_instance_peaks * n_nodes)` for a
+    positive float: afterwards the parameter **is** an absolute integer count. -/
+def effMinPeaks (mp : MinPeaks) (nNodes : Nat) : MinPeaks :=
+  match mp with
+  | .int n => .int n
+  | .frac q => if 0 < q then .int (roundF64 (q * (nNodes : Rat))).floor else .frac q
 
 def countId (a : Assign) (i : Nat) : Nat := (a.filter (fun kv => kv.2 == i)).length
 
@@ -277,6 +323,11 @@ structure Params (R : Type) where
   order : List Nat
   minLine : R
   minPeaks : MinPeaks
+
+/-- scorer parameters as the code sees them: a float `min_instance_peaks` goes through the float64
+    conversion of `assign_connections_to_instances` (`n_nodes` is passed by `group_instances_sample`) -/
+def mkParams (nNodes : Nat) (edges : List Edge) (order : List Nat) (minLine : R) (mp : MinPeaks) :
+    Params R := ⟨nNodes, edges, order, minLine, effMinPeaks mp nNodes⟩
 
 structure Output (R : Type) where
   mts : List (List (Match R))      -- per edge index, before the min-score filter
